@@ -270,6 +270,9 @@ var respExtVariants = []string{
 	"permessage-deflate; server_no_context_takeover",
 	"permessage-deflate; client_no_context_takeover; server_no_context_takeover",
 	"permessage-deflate; server_max_window_bits=15",
+	"permessage-deflate; server_max_window_bits=15; client_no_context_takeover", // the flag behind a valued parameter
+	"permessage-deflate; client_no_context_takeover; server_max_window_bits=15",
+	"permessage-deflate; server_max_window_bits=15; server_no_context_takeover; client_no_context_takeover",
 	"permessage-deflate; server_max_window_bits=10",
 	"permessage-deflate; client_max_window_bits=15", // never offered by this client
 	"permessage-deflate; foo",
